@@ -31,7 +31,7 @@ fn q(x: &str) -> String {
 pub fn rules(th: bool) -> Vec<(String, String, String)> {
     let pats = {
         let mut p = strings(&["a", "A", "i", "I", "*", "?"], if th { 4 } else { 3 });
-        for x in ["'a'", "\"A\"", "'*a'", "b", "ab", "aB*", "*Ab", "?^a", "?A$", "?(a|B)", ">1", "=1", ">=1.5", "i>1", "k", "*k", "k*", "*k*", "K", "s*", "*ss*", "ak"] {
+        for x in ["'a'", "\"A\"", "'*a'", "b", "ab", "aB*", "*Ab", "?^a", "?A$", "?(a|B)", ">1", "=1", ">=1.5", "i>1", "?.*a", "?a.*", "?.*A.*", "?.*", "k", "*k", "k*", "*k*", "K", "s*", "*ss*", "ak"] {
             p.push(x.to_string());
         }
         p
